@@ -38,16 +38,11 @@ fn table_total(entries: &'static [CommandNameEntry]) {
 }
 /// entries lo..hi of the table (one harness per slice keeps each query small)
 fn table_range(entries: &'static [CommandNameEntry], lo: usize, hi: usize) {
-    // case variants: as written, UPPER, first letter flipped, alternating -- enumerated concretely (symbolic letters,
-    // and even a symbolic choice among these four masks, in front of ~150 case-insensitive comparisons did not
-    // finish in 20 min)
-    let masks: [u32; 4] = [0, 0xFFFF_FFFF, 1, 0xAAAA_AAAA];
-    let mut mi = 0;
-    while mi < 4 {
-        table_range_mask(entries, lo, hi, masks[mi]);
-        mi += 1;
-    }
-    kani::cover!(true);
+    // every letter case: symbolic case mask (feasible for one table entry per harness: each name is compared
+    // case-insensitively against the whole table)
+    let mask: u32 = kani::any();
+    table_range_mask(entries, lo, hi, mask);
+    kani::cover!(mask & 0xFF == 0xA5);
 }
 fn table_range_mask(entries: &'static [CommandNameEntry], lo: usize, hi: usize, mask: u32) {
     let mut e = lo;
@@ -79,27 +74,39 @@ fn table_range_mask(entries: &'static [CommandNameEntry], lo: usize, hi: usize, 
 }
 
 macro_rules! names_slice {
-    ($name:ident, $lo:expr, $hi:expr) => {
+    ($name:ident, $e:expr) => {
         #[kani::proof]
         #[kani::unwind(26)]
         fn $name() {
-            assert!(COMMANDS.len() == 18, "command table changed size: adjust the slices");
-            table_range(COMMANDS, $lo, $hi);
+            assert!(COMMANDS.len() == 18, "command table changed size: adjust the per-entry harnesses");
+            table_range(COMMANDS, $e, $e + 1);
         }
     };
 }
-names_slice!(c14_names_main_0, 0, 3);
-names_slice!(c14_names_main_1, 3, 6);
-names_slice!(c14_names_main_2, 6, 9);
-names_slice!(c14_names_main_3, 9, 12);
-names_slice!(c14_names_main_4, 12, 15);
-names_slice!(c14_names_main_5, 15, 18);
+names_slice!(c14_names_entry_00, 0);
+names_slice!(c14_names_entry_01, 1);
+names_slice!(c14_names_entry_02, 2);
+names_slice!(c14_names_entry_03, 3);
+names_slice!(c14_names_entry_04, 4);
+names_slice!(c14_names_entry_05, 5);
+names_slice!(c14_names_entry_06, 6);
+names_slice!(c14_names_entry_07, 7);
+names_slice!(c14_names_entry_08, 8);
+names_slice!(c14_names_entry_09, 9);
+names_slice!(c14_names_entry_10, 10);
+names_slice!(c14_names_entry_11, 11);
+names_slice!(c14_names_entry_12, 12);
+names_slice!(c14_names_entry_13, 13);
+names_slice!(c14_names_entry_14, 14);
+names_slice!(c14_names_entry_15, 15);
+names_slice!(c14_names_entry_16, 16);
+names_slice!(c14_names_entry_17, 17);
 #[kani::proof]
 #[kani::unwind(26)]
 fn c14_names_subcommands() {
     table_total(SUBCOMMANDS_STEP);
     table_total(SUBCOMMANDS_BREAK);
-    let mask: u32 = if kani::any() { 0 } else { 0xFFFF_FFFF };
+    let mask: u32 = kani::any();
     let mut buf = [0u8; 24];
     assert!(name_matches(case_variant("step", mask, &mut buf), COMMAND_STEP));
     let mut buf = [0u8; 24];
